@@ -272,6 +272,7 @@ _dispatch_group_wake(dispatch_group_t dg, uint64_t dg_state, bool needs_release)
 		_dispatch_wake_by_address(&dg->dg_gen);
 	}
 
+	if (needs_release) DISPATCH_VERIF_PROBE(23);
 	if (refs) _dispatch_release_n(dg, refs);
 }
 
@@ -285,6 +286,7 @@ dispatch_group_leave(dispatch_group_t dg)
 	uint32_t old_value = (uint32_t)(old_state & DISPATCH_GROUP_VALUE_MASK);
 
 	if (unlikely(old_value == DISPATCH_GROUP_VALUE_1)) {
+		DISPATCH_VERIF_PROBE(22);
 		old_state += DISPATCH_GROUP_VALUE_INTERVAL;
 		do {
 			new_state = old_state;
